@@ -115,7 +115,7 @@ func cmdCheck(args []string) {
 	sort.Strings(keys)
 	for _, k := range keys {
 		sp := L.specs.Funcs[k]
-		if sp.Assumed {
+		if sp.Assumed || sp.Trusted {
 			continue
 		}
 		short := shortKeyOf(k)
@@ -153,7 +153,7 @@ func cmdCheck(args []string) {
 	fnOf := map[string]*ssa.Function{}
 	var engineErrs []string
 	for _, t := range targets {
-		r := L.verifyFunc(t.fn, t.sp)
+		r := L.verifyFuncHoudini(t.fn, t.sp, opt)
 		results = append(results, r)
 		fnOf[r.Short] = t.fn
 		for _, e := range r.Errs {
@@ -161,7 +161,7 @@ func cmdCheck(args []string) {
 		}
 		all = append(all, r.Obls...)
 	}
-	dischargeAll(all, opt)
+	dischargeAll(pending(all), opt)
 
 	known := loadKnown()
 	openByObl := map[string]*KnownFinding{}
@@ -172,6 +172,9 @@ func cmdCheck(args []string) {
 		}
 	}
 	replayDir := filepath.Join(verifDir, "replays", id)
+	if !*noEvidence {
+		os.RemoveAll(replayDir) // replays are rewritten on every run
+	}
 	var violations []string
 	var knownHit []string
 	discharged, total, covers, coverOK := 0, 0, 0, 0
